@@ -131,7 +131,7 @@ impl Check for C15 {
             // a caller that keeps using the finished writer: whatever those calls do, no image may be accepted that is not
             // the file as it stands at the end
             let more = small_program(s).ops.into_iter().filter(|o| !matches!(o, prog::Op::Ext { .. })).take(2).collect();
-            program.end = End::FinalizeThenMore { more };
+            program.end = End::FinalizeThenMore { more, customized: s.flag() };
         }
         let old = if s.chance(1, 6) { Some(small_program(s)) } else { None };
         Case { program, all_cuts: t == Tier::Thorough, old }
@@ -152,7 +152,7 @@ impl Check for C15 {
         let dev = MemDev::with_data(old_bytes.clone());
         dev.st.borrow_mut().record = true;
         let h = dev.handle();
-        let mut tr = Trace::default();
+        let mut tr = Trace { add_after_failed_finalize: true, ..Trace::default() };
         if let Err(panic) = guard(|| prog::exec(p, dev, &mut tr)) {
             v.fail(format!("writer panicked in {}: {panic}", tr.current));
             return v;
@@ -170,9 +170,19 @@ impl Check for C15 {
             }
             v.nt("nonempty_device_accepted");
         }
-        if tr.error.is_some() {
+        // a top-level finalize that fails without any device fault, answered by a caller who adds more data: there is no
+        // completed file, but if the reader accepts what the device holds in the end, every image it accepted on the
+        // way must agree with that
+        let failed_finalize_then_more = tr.error.is_some() && tr.added_after_failed_finalize;
+        if tr.error.is_some() && !failed_finalize_then_more {
             v.label("writer_error_out_of_scope");
             return v;
+        }
+        if failed_finalize_then_more {
+            v.nt("finalize_failed_and_the_caller_added_more");
+        }
+        if tr.finalized_after_adding_more {
+            v.nt("finalize_failed_then_succeeded_after_adding_more");
         }
         let st = h.st.borrow();
         let writes: Vec<(u64, &[u8], usize)> = st.log.iter().enumerate().filter(|(_, o)| o.kind == OpKind::Write).map(|(i, o)| (o.offset, &o.data[..], i)).collect();
@@ -189,9 +199,11 @@ impl Check for C15 {
             // and every prefix of it
         }
         let completed = st.data.clone();
-        let baseline = if tr.finalized {
+        let baseline = if tr.finalized || failed_finalize_then_more {
             match guard(|| results(&completed, &free, None)) {
                 Ok(Ok((ops, outs, header))) => Some(Baseline { ops, outs, header }),
+                // (no finalize call succeeded: nothing says that the device must hold an acceptable file)
+                Ok(Err(_)) if !tr.finalized => None,
                 Ok(Err(e)) => {
                     v.fail(format!("the completed file is rejected by the reader: {e}"));
                     return v;
